@@ -2,6 +2,7 @@ package server
 
 import (
 	"Havoc/pkg/agent"
+	"Havoc/pkg/handlers"
 	"Havoc/pkg/packager"
 )
 
@@ -96,6 +97,13 @@ func H_c11_fanout() {
 		cs = append(cs, verifAddClient(t, ids[i], true))
 	}
 	except := []string{"", "c0", "c1", "c2", "nobody"}[nondet_choice("except", 5)]
+	// one operator's transport may be dead (every write to it fails)
+	dead := nondet_choice("dead-client", 4) - 1
+	if dead >= 0 {
+		if dead < n {
+			verifConnFail[cs[dead].Connection] = 0
+		}
+	}
 	pk := verifMarker(7)
 	pk.Head.Event = int(nondet_i32("event-code"))
 	t.EventBroadcast(except, pk)
@@ -103,6 +111,9 @@ func H_c11_fanout() {
 		want := 1
 		if ids[i] == except {
 			want = 0
+		}
+		if i == dead {
+			want = 0 // nothing can be written to a dead transport; the others must not suffer
 		}
 		if pk.Head.Event == 0 {
 			want = 0
@@ -139,5 +150,73 @@ func H_c11_fault() {
 		}
 		verif_no_locks_held("a failed write must not leave the per-client lock held")
 	}
+	verif_witness()
+}
+
+func verifListenerEvent(kind int) packager.Package {
+	pk := packager.Package{}
+	pk.Head.Event = packager.Type.Listener.Type
+	pk.Body.Info = map[string]any{}
+	switch kind {
+	case 0:
+		pk.Body.SubEvent = packager.Type.Listener.Add
+		pk.Body.Info["Name"] = "a"
+	case 1:
+		pk.Body.SubEvent = packager.Type.Listener.Add
+		pk.Body.Info["Name"] = "b"
+	case 2:
+		pk.Body.SubEvent = packager.Type.Listener.Remove
+		pk.Body.Info["Name"] = "a"
+	case 3:
+		pk.Body.SubEvent = packager.Type.Listener.Error
+		pk.Body.Info["Name"] = "a"
+	default:
+		return verifMarker(50)
+	}
+	return pk
+}
+
+// H_c11_listener_prune: removing listener "a" prunes exactly its (first) retained Add record;
+// every other retained event - other listeners, earlier Remove/Error records of the same
+// name, chat - stays, in order, so a newcomer's replay shows no removed listener.
+func H_c11_listener_prune() {
+	t := verifNewTeamserver(true)
+	k := 1 + nondet_choice("events", 4)
+	var kinds []int
+	for i := 0; i < k; i++ {
+		kd := nondet_choice("kind", 5)
+		kinds = append(kinds, kd)
+		t.EventsList = append(t.EventsList, verifListenerEvent(kd))
+	}
+	smbA := handlers.NewPivotSmb()
+	smbA.Config.Name = "a"
+	smbB := handlers.NewPivotSmb()
+	smbB.Config.Name = "b"
+	t.Listeners = []*Listener{{Name: "a", Type: handlers.LISTENER_PIVOT_SMB, Config: smbA}, {Name: "b", Type: handlers.LISTENER_PIVOT_SMB, Config: smbB}}
+	verifDBListeners = []string{"a", "b"}
+	t.ListenerRemove("a")
+	// reference: drop the first Add("a")
+	var want []int
+	dropped := false
+	for _, kd := range kinds {
+		if kd == 0 {
+			if !dropped {
+				dropped = true
+				continue
+			}
+		}
+		want = append(want, kd)
+	}
+	verif_assert(len(t.EventsList) == len(want), "removing a listener prunes exactly one retained record: its Add")
+	for i := range want {
+		if i < len(t.EventsList) {
+			e := t.EventsList[i]
+			ref := verifListenerEvent(want[i])
+			verif_assert(e.Head.Event == ref.Head.Event, "other retained events keep their place")
+			verif_assert(e.Body.SubEvent == ref.Body.SubEvent, "other retained events keep their kind")
+			verif_assert(e.Body.Info["Name"] == ref.Body.Info["Name"], "other retained events keep their listener name")
+		}
+	}
+	verif_assert(len(t.Listeners) == 1, "the removed listener leaves the running set")
 	verif_witness()
 }
